@@ -118,6 +118,66 @@ pub fn explore(ex: &Ex) {
             }
         }
     });
+    // the two occurrences of a typed label with every pair of values from {valid, another valid,
+    // the field's default / empty / reserved value}: detection must not depend on the values
+    let typed: Vec<(Ty, u64, Vec<Item>)> = vec![
+        (Ty::Header, 1, vec![i(-7), u(1), u(0), t("")]),
+        (Ty::Header, 2, vec![gen::arr(vec![u(1)]), gen::arr(vec![u(4), u(1)]), gen::arr(vec![])]),
+        (Ty::Header, 3, vec![u(0), t("a/b"), t("")]),
+        (Ty::Header, 4, vec![b(b"a"), b(b"b"), b(b"")]),
+        (Ty::Header, 5, vec![b(b"a"), b(b"b"), b(b"")]),
+        (Ty::Header, 6, vec![b(b"a"), b(b"b"), b(b"")]),
+        (Ty::Header, 7, vec![gen::sig_valid(), gen::arr(vec![gen::sig_valid(), gen::sig_valid2()]), gen::arr(vec![])]),
+        (Ty::Key, 1, vec![u(1), u(2), u(0), t("")]),
+        (Ty::Key, 2, vec![b(b"a"), b(b"b"), b(b"")]),
+        (Ty::Key, 3, vec![i(-7), u(1), u(0)]),
+        (Ty::Key, 4, vec![gen::arr(vec![u(1)]), gen::arr(vec![u(2), u(1)]), gen::arr(vec![])]),
+        (Ty::Key, 5, vec![b(b"a"), b(b"b"), b(b"")]),
+        (Ty::Claims, 1, vec![t("a"), t("b"), t("")]),
+        (Ty::Claims, 4, vec![u(1), u(0), Item::float(0.0)]),
+        (Ty::Claims, 7, vec![b(b"a"), b(b"b"), b(b"")]),
+        (Ty::Claims, 8, vec![u(1), u(0), crate::refcbor::NULL]),
+        (Ty::Header, 9, vec![u(1), u(0), crate::refcbor::NULL]),
+        (Ty::Key, 6, vec![u(1), u(0), crate::refcbor::NULL]),
+    ];
+    par_partitions(ex.rep, typed, |(kind, label, vals), l| {
+        for v1 in vals {
+            for v2 in vals {
+                for third in [None, Some(0usize), Some(1), Some(2)] {
+                    let mut entries = vec![(u(*label), v1.clone()), (u(*label), v2.clone())];
+                    if let Some(pos) = third {
+                        entries.insert(pos, (u(1000), u(0)));
+                    }
+                    if *kind == Ty::Key && *label != 1 {
+                        entries.insert(0, (u(1), u(1)));
+                    }
+                    if *kind == Ty::Claims {
+                        for e in entries.iter_mut() {
+                            if e.0 == u(1000) {
+                                e.0 = i(-70000);
+                            }
+                        }
+                    }
+                    let m = Item::Map(entries).det();
+                    l.state(2);
+                    l.count("c12.decode.value_pairs");
+                    match kind {
+                        Ty::Header => {
+                            for (_n, ty, bytes) in header_carriers(&m, third.is_none()) {
+                                ex.decode(l, "c12.decode.values", ty, Entry::Slice, &bytes);
+                            }
+                        }
+                        Ty::Key => {
+                            ex.decode(l, "c12.decode.values", Ty::Key, Entry::Slice, &m);
+                            let ks = [&[0x81u8][..], &m].concat();
+                            ex.decode(l, "c12.decode.values", Ty::KeySet, Entry::Slice, &ks);
+                        }
+                        _ => ex.decode(l, "c12.decode.values", Ty::Claims, Entry::Slice, &m),
+                    }
+                }
+            }
+        }
+    });
     // duplicates with differing values, and with a second independent fault (only rejection required)
     let extra: Vec<(Ty, Item)> = vec![
         (Ty::Header, map(vec![(u(9), u(1)), (u(9), u(2))])),
